@@ -250,3 +250,159 @@ def list_tail_pairs(X, Y, s):
     for a, b in zip(l, l[1:]):
         t += (b - a) * a
     return t
+
+
+# ----------------------------------------------------------------------------- more summaries
+def conditional_accumulate(X, Y, s):
+    t = 0.0
+    for i in range(X.shape[0]):
+        if X[i, 1] > X[i, 0]:
+            t += X[i, 1] - X[i, 0]
+        else:
+            t -= 1.0
+    return t
+
+
+def skip_with_continue(X, Y, s):
+    t = 0.0
+    for i in range(X.shape[0]):
+        if X[i, 0] < 0:
+            continue
+        t += X[i, 0]
+    return t
+
+
+def counter_while(X, Y, s):
+    i = 0
+    t = 0.0
+    while i < X.shape[0]:
+        t += X[i, 0] * X[i, 1]
+        i += 1
+    return t
+
+
+def product_of_sums(X, Y, s):
+    a = 0.0
+    for i in range(X.shape[0]):
+        a += X[i, 0]
+    b = 0.0
+    for j in range(Y.shape[0]):
+        b += Y[j, 1]
+    return a * b
+
+
+def inner_depends_on_outer_value(X, Y, s):
+    t = 0.0
+    for i in range(X.shape[0]):
+        w = X[i, 1] - X[i, 0]
+        for j in range(Y.shape[0]):
+            t += w * Y[j, 0]
+    return t
+
+
+def two_masks(X, Y, s):
+    Z = X[(X[:, 0] > 0) & (X[:, 1] > X[:, 0]), :]
+    return np.sum(Z[:, 0])
+
+
+def mask_then_mask(X, Y, s):
+    Z = X[X[:, 0] > 0, :]
+    W = Z[Z[:, 1] > s, :]
+    return np.sum(W[:, 1])
+
+
+def masked_assignment_sum(X, Y, s):
+    c = np.copy(X)
+    c[c[:, 1] < 0, 1] = 0.0
+    return np.sum(c[:, 1])
+
+
+def clip_and_sum(X, Y, s):
+    return np.sum(np.minimum(np.maximum(X[:, 0], 0.0), 1.0))
+
+
+def diagonal_of_outer(X, Y, s):
+    G = np.outer(X[:, 0], X[:, 1])
+    return np.sum(np.diag(G))
+
+
+def row_sums_then_max(X, Y, s):
+    return np.max(np.sum(np.abs(X), axis=1))
+
+
+def column_of_matrix_product(X, Y, s):
+    R = np.array([[0.5, -0.5], [0.5, 0.5]])
+    Z = X.dot(R)
+    return np.sum(Z[:, 1])
+
+
+def distance_matrix_entry_sum(X, Y, s):
+    D = np.sqrt((X[:, None, 0] - Y[None, :, 0]) ** 2 + (X[:, None, 1] - Y[None, :, 1]) ** 2)
+    return np.sum(D)
+
+
+def min_over_pairs(X, Y, s):
+    D = np.abs(X[:, None, 0] - Y[None, :, 0])
+    return np.min(D)
+
+
+def bucket_lists(X, Y, s):
+    W = [[] for _ in range(3)]
+    for i in range(X.shape[0]):
+        W[0].append(X[i, 0])
+        W[2].append(X[i, 1])
+    return [sum(W[0]), len(W[1]), sum(W[2])]
+
+
+def helper_called_in_loop(X, Y, s):
+    def tent(b, d, t):
+        return max(0.0, min(t - b, d - t))
+    t = 0.0
+    for i in range(X.shape[0]):
+        t += tent(X[i, 0], X[i, 1], s)
+    return t
+
+
+def list_of_rows_sorted_by_key_sum(X, Y, s):
+    rows = sorted([[x[0], x[1]] for x in X], key=lambda r: r[0])
+    return sum(r[1] for r in rows)
+
+
+def enumerate_two_arrays(X, Y, s):
+    t = 0.0
+    for i, row in enumerate(X):
+        t += (i + 1) * row[1]
+    return t
+
+
+def shape_arithmetic(X, Y, s):
+    M, N = X.shape[0], Y.shape[0]
+    return [M + N, min(M, N) <= max(M, N), (M + N) * (M + N)]
+
+
+def conditional_expression_in_sum(X, Y, s):
+    return sum((x[1] if x[1] > x[0] else x[0]) for x in X)
+
+
+def early_continue_two_conditions(X, Y, s):
+    t = 0.0
+    for i in range(X.shape[0]):
+        if X[i, 0] > s:
+            continue
+        if X[i, 1] < 0:
+            continue
+        t += 1.0
+    return t
+
+
+def broadcasting_row_minus_vector(X, Y, s):
+    c = X - np.array([s, 2 * s])
+    return np.sum(c[:, 1])
+
+
+def cross_and_diagonal_blocks_sum(X, Y, s):
+    M, N = X.shape[0], Y.shape[0]
+    D = np.zeros((M + N, M + N))
+    D[0:M, 0:N] = X[:, None, 1] + Y[None, :, 0]
+    D[M:M + N, N:N + M] = 1.0
+    return np.sum(D)
